@@ -65,10 +65,10 @@ def random_sinput(rng, fam, max_obj, max_sp, nf, costs=None, min_obj=2, p_root=0
     st = gen.random_bin_shape(rng, rng.randint(1, max_sp))
     lm = gen.random_leaf_map(rng, ot, st)
     c = rng.choice(costs) if costs else gen.random_cost(rng, pred)
-    syn, ref = random_syn(rng, fam, ot, rng.randint(1, nf))
-    root = ()
-    if fam == "ord" and rng.random() < p_root:
-        root = tuple(ref)
+    with_root = fam == "ord" and rng.random() < p_root
+    # a prescribed root order must be a common supersequence of the leaves (documented domain)
+    syn, ref = random_syn(rng, fam, ot, rng.randint(1, nf), p_inconsistent=0.0 if with_root else 0.15)
+    root = tuple(ref) if with_root else ()
     return sinput(ot, st, lm, c, syn, root)
 
 
@@ -174,7 +174,7 @@ def run_solver(A, fam, algo, policy, inp):
     pol = A.dp.RetentionPolicy[policy]
     event = {"op": "solve", "fam": fam, "algo": algo, "policy": policy, "in": sinput_json(inp),
              "exc": "", "sols": [], "costs": [], "rcosts": [], "lcosts": []}
-    res = mc.safe(lambda: list(solver(A, fam, algo)(built.input, pol)))
+    res = mc.safe(lambda: _quiet(lambda: list(solver(A, fam, algo)(built.input, pol))))
     if isinstance(res, mc.Raised):
         event["exc"] = res.text
         return event
@@ -198,6 +198,14 @@ def run_solver(A, fam, algo, policy, inp):
         event["rcosts"].append(rcost)
         event["lcosts"].append(lcost)
     return event
+
+
+def _quiet(fn):
+    """Run fn with the solver's warnings on stderr discarded."""
+    import contextlib
+    import io
+    with contextlib.redirect_stderr(io.StringIO()):
+        return fn()
 
 
 CALLS = (("ext", "ALL"), ("ext", "ANY"), ("base", "ALL"), ("base", "ANY"))
@@ -226,9 +234,9 @@ def run_all(cases, jobs=16):
 
 # ------------------------------------------------------------------ judging
 def describe(event, clauses):
-    return (f"{ALGOS[event['fam']][event['algo']]}({event['policy']}) fails {clauses} on {event['in']}: "
+    return (f"{ALGOS[event['fam']][event['algo']]}({event['policy']}) fails {clauses} on {event.get('pin', event['in'])}: "
             f"exc={event['exc']!r} returned {len(event['sols'])} solution(s) costs {event['costs'][:5]} "
-            f"first {event['sols'][:1]}")
+            f"first {event['sols'][:1]} {event.get('notes', '')}")
 
 
 def validate(ctx, results, relevant, jobs=16):
@@ -265,3 +273,124 @@ def replay_case(prop, case, relevant):
     print("observed:", {k: new[k] for k in ("exc", "sols", "costs")})
     validate(ctx, [(event["fam"], inp, [new])], relevant, jobs=1)
     return 1 if ctx.violations else 0
+
+
+# ------------------------------------------------------ inputs with polytomies
+def canonical_tree(clades):
+    """Parent array of the tree with clade set `clades` (frozensets of leaf ids,
+    root and singletons included), children ordered by their least leaf; returns
+    (parents, index) with index[clade] = node number."""
+    root = max(clades, key=len)
+    parents, index = [], {}
+
+    def visit(clade, par):
+        parents.append(par)
+        me = len(parents)
+        index[clade] = me
+        kids = [c for c in clades if c < clade and not any(c < d < clade for d in clades)]
+        for kid in sorted(kids, key=min):
+            visit(kid, me)
+
+    visit(root, 0)
+    return tuple(parents), index
+
+
+def refine_input(pinp, oref, sref):
+    """The binary input obtained from the polytomous abstract input `pinp` (leaf
+    ids = node numbers of its leaves) with the refinements oref / sref (clade
+    sets over those leaf ids)."""
+    oa, oidx = canonical_tree(oref)
+    sa, sidx = canonical_tree(sref)
+    lm = [0] * len(oa)
+    syn = [()] * len(oa)
+    for u in proj.leaves_of(pinp["ot"]):
+        new = oidx[frozenset([u])]
+        lm[new - 1] = sidx[frozenset([pinp["lm"][u - 1]])]
+        syn[new - 1] = tuple(pinp["syn"][u - 1])
+    return sinput(oa, sa, lm, pinp["c"], syn, pinp["root"])
+
+
+def project_poly_solution(A, out, built):
+    """Image of a solution of a polytomous input on canonical refined trees.
+    Leaves are recognised by name (o<i> / s<i> of the original input)."""
+    inp = out.input
+    oleaf = {built.onodes[u - 1].name: u for u in proj.leaves_of(built.ot)}
+    sleaf = {built.snodes[u - 1].name: u for u in proj.leaves_of(built.st)}
+
+    def clade_map(tree, leaf_ids):
+        table = {}
+        for node in tree.traverse():
+            table[node] = frozenset(leaf_ids[leaf.name] for leaf in node.get_leaves())
+        return table
+
+    ocl = clade_map(inp.object_tree, oleaf)
+    scl = clade_map(inp.species_lca.tree, sleaf)
+    oa, oidx = canonical_tree(frozenset(ocl.values()))
+    sa, sidx = canonical_tree(frozenset(scl.values()))
+    m = [0] * len(oa)
+    lab = [[-1]] * len(oa)
+    lm = [0] * len(oa)
+    syn = [[]] * len(oa)
+    binary = True
+    names = {}
+    for node, clade in ocl.items():
+        i = oidx[clade]
+        sp = out.object_species.get(node)
+        m[i - 1] = sidx[scl[sp]] if sp in scl else 0
+        fams = out.syntenies.get(node)
+        if fams is not None:
+            ids = [proj.fam_id(f) for f in fams]
+            lab[i - 1] = ids if out.ordered else sorted(ids)
+        if not node.children:
+            lm[i - 1] = sidx[scl[inp.leaf_object_species[node]]]
+            ids = [proj.fam_id(f) for f in inp.leaf_syntenies[node]]
+            syn[i - 1] = ids if out.ordered else sorted(ids)
+        elif len(node.children) != 2:
+            binary = False
+        names[("o", tuple(sorted(clade)))] = (node.name, getattr(node, "color", None))
+    for node, clade in scl.items():
+        if node.children and len(node.children) != 2:
+            binary = False
+        names[("s", tuple(sorted(clade)))] = (node.name, getattr(node, "color", None))
+    return {"ot": list(oa), "st": list(sa), "lm": lm, "syn": syn, "m": m, "lab": lab}, binary, names
+
+
+def run_solver_poly(A, fam, policy, pinp, refs, colours=True):
+    """The extended solver on an input with polytomies -> one `poly` event."""
+    built = proj.build_input(A, pinp, syn=pinp["syn"], unordered=(fam == "un"),
+                             root_syn=pinp["root"] if pinp["root"] else None)
+    orig_names = {}
+    for kind, nodes, parents in (("o", built.onodes, built.ot), ("s", built.snodes, built.st)):
+        cl = proj.clades(parents)
+        for i, node in enumerate(nodes, start=1):
+            if node.children and colours and i % 2 == 1:
+                node.add_feature("color", f"k{i}")
+            orig_names[(kind, tuple(sorted(cl[i - 1])))] = (node.name, getattr(node, "color", None))
+    pol = A.dp.RetentionPolicy[policy]
+    event = {"op": "poly", "fam": fam, "algo": "ext", "policy": policy, "pin": sinput_json(pinp),
+             "in": sinput_json(refs[0]), "refs": [sinput_json(r) for r in refs],
+             "exc": "", "sols": [], "costs": [], "notes": []}
+    res = mc.safe(lambda: _quiet(lambda: list(solver(A, fam, "ext")(built.input, pol))))
+    if isinstance(res, mc.Raised):
+        event["exc"] = res.text
+        return event
+    rows = []
+    for out in res:
+        row = mc.safe(lambda out=out: (project_poly_solution(A, out, built), proj.cost_from_impl(A, out.cost())))
+        if isinstance(row, mc.Raised):
+            event["exc"] = "projecting a returned solution: " + row.text
+            return event
+        rows.append(row)
+    rows.sort(key=lambda r: (r[0][0]["ot"], r[0][0]["st"], r[0][0]["m"], r[0][0]["lab"]))
+    for (sol, binary, names), cost in rows:
+        event["sols"].append(sol)
+        event["costs"].append(cost)
+        if not binary:
+            event["notes"].append("a returned solution refers to a tree that is not binary")
+        for key, info in orig_names.items():
+            if key not in names:
+                event["notes"].append(f"original clade {key} is missing from a returned solution")
+            elif names[key] != info:
+                event["notes"].append(f"clade {key}: (name, colour) {info} became {names[key]}")
+    event["notes"] = sorted(set(event["notes"]))[:5]
+    return event
